@@ -586,3 +586,19 @@ STATIC void _soxr_sizes(size_t * shared, size_t * channel)
   *channel = sizeof(rate_t);
 }
 #endif
+
+#if defined SOXR_VERIF && defined SOXR_LIB /* Verification hook (add-only): name the kind of a stage. */
+char const * _soxr_rate32_cb_verif_kind(stage_fn_t), * _soxr_rate32s_cb_verif_kind(stage_fn_t),
+           * _soxr_rate64_cb_verif_kind(stage_fn_t), * _soxr_rate64s_cb_verif_kind(stage_fn_t);
+char const * _soxr_verif_stage_kind(stage_t const * s);
+char const * _soxr_verif_stage_kind(stage_t const * s)
+{
+  char const * r;
+  if (s->fn == dft_stage_fn) return "dft:dft";
+  if (WITH_CR32  && (r = _soxr_rate32_cb_verif_kind (s->fn))) return r;
+  if (WITH_CR32S && (r = _soxr_rate32s_cb_verif_kind(s->fn))) return r;
+  if (WITH_CR64  && (r = _soxr_rate64_cb_verif_kind (s->fn))) return r;
+  if (WITH_CR64S && (r = _soxr_rate64s_cb_verif_kind(s->fn))) return r;
+  return "unknown:unknown";
+}
+#endif
